@@ -600,6 +600,15 @@ def lift_private_callers(F, CG, path):
     return sorted(set(out))
 
 
+def is_private_helper(F, CG, fn):
+    """a function that is neither part of the API nor a trait impl (Drop, Future, ...) and that somebody in the crate
+    calls: a free helper, a private method, a provided method of a private trait.  It is judged inlined into its
+    callers - which know what they hand to it and, for a provided trait method, which type `Self` is - not on its own."""
+    if fn.get('kind') not in ('fn', 'assoc') or fn.get('reachable') or fn.get('impl_trait'):
+        return False
+    return any(c != fn['path'] for c, _ in CG.callers_of(fn['path']))
+
+
 # ------------------------------------------------------------ path queries
 def fields_of(loc):
     """field names of an access path (the intrusive node's `data` hop and downcasts are transparent)"""
